@@ -149,7 +149,8 @@ func gen(r *hlib.Rand, n int, tier, profile string, emit func(string, ...any)) {
 				if r.Bool() {
 					emit("nodetails %s %d", from(), r.Intn(12))
 				} else {
-					emit("raw %s %s", from(), hlib.Hex(r.Bytes(hlib.Pick(r, 0, 1, 2, 5, 20))))
+					// field 1 with the invalid wire type 7: never decodes
+					emit("raw %s 0f%s", from(), strings.TrimPrefix(hlib.Hex(r.Bytes(hlib.Pick(r, 0, 1, 2, 5, 20))), "-"))
 				}
 			default:
 				typ := hlib.Pick(r, 1, 1, 2, 2, 3, 3, 3, 5, 5, r.Intn(12))
